@@ -31,12 +31,13 @@ def _grid(sc, shape=None):
     if g == "quasi":
         from fdtdx.core.grid import QuasiUniformGrid
 
-        return QuasiUniformGrid(spacing=(res, res, res))
+        return QuasiUniformGrid(dx=res, dy=res, dz=res)
     if g == "rect":
         from fdtdx.core.grid import RectilinearGrid
 
         shape = shape or sc["shape"]
-        return RectilinearGrid.from_cell_widths(*[np.full((n,), res, dtype=np.float64) for n in shape])
+        # explicit edge arrays with equal spacings, centred like the policies resolve them
+        return RectilinearGrid.custom(*[(np.arange(n + 1, dtype=np.float64) - n / 2) * res for n in shape])
     raise ValueError(g)
 
 
@@ -134,6 +135,7 @@ def build(sc: dict, config=None):
         elif k == "poynting":
             det = fdtdx.PoyntingFluxDetector(**kw, direction=d.get("dir", "+"), fixed_propagation_axis=d.get("axis", 2), reduce_volume=d.get("reduce", True))
         elif k == "phasor":
+            kw["dtype"] = jnp.complex128
             det = fdtdx.PhasorDetector(**kw, wave_characters=(fdtdx.WaveCharacter(wavelength=d.get("wl", 800e-9)),), reduce_volume=d.get("reduce", False))
         else:
             raise ValueError(k)
